@@ -239,5 +239,5 @@ pub fn run(ctx: &Ctx) {
     let n = family().len() as u64;
     ctx.exhaustive("family_histories", n * 3 * 9 * 9 * 9, family_nth, oracle);
     let max_len = ctx.pick(6, 10);
-    ctx.random("random_histories", ctx.pick(40_000, 400_000), move || random_hist(max_len), oracle);
+    ctx.random("random_histories", ctx.pick(40_000, 2_000_000), move || random_hist(max_len), oracle);
 }
